@@ -5,6 +5,7 @@ import (
 	"encoding/json"
 	"fmt"
 	"sort"
+	"strings"
 	"testing"
 
 	"github.com/flanglet/kanzi-go/v2/bitstream"
@@ -238,13 +239,77 @@ type C12Case struct {
 	Codec     string      `json:"codec"`
 	Hist      *HistRecipe `json:"hist,omitempty"`
 	Data      *gen.Recipe `json:"data,omitempty"`
+	Adv       *AdvRecipe  `json:"adv,omitempty"` // CM/TPAQ/TPAQX only: block built against the codec's own predictor
 	BlockSize uint        `json:"block_size"` // ctx blockSize (TPAQ sizing)
 	Prefix    int         `json:"prefix"`     // whole bytes written before the block
 	PadBits   int         `json:"pad_bits"`   // bits written after the sentinel
 	BufSize   uint        `json:"buf_size"`   // bitstream buffer size
 }
 
+// AdvRecipe describes a block that is adversarial for a bit-wise coder: the harness runs the codec's own
+// predictor (same context as the encoder) and emits, bit after bit, the value the predictor finds LESS likely,
+// except for Noise per mille of the bits, which are drawn from the seed. Such blocks cost more than one bit per
+// bit and exercise the coders' output-size assumptions.
+type AdvRecipe struct {
+	Len   int    `json:"len"`
+	Noise int    `json:"noise"`
+	Seed  uint64 `json:"seed"`
+}
+
+func c12Ctx(codec string, blockSize uint, n int) (map[string]any, uint) {
+	bsz := blockSize
+	if bsz < 1024 {
+		bsz = uint(max(1024, (n+15)&^15))
+	}
+	return map[string]any{"entropy": codec, "blockSize": bsz, "size": uint(n), "bsVersion": uint(6), "jobs": uint(1), "transform": "NONE"}, bsz
+}
+
+func (a AdvRecipe) expand(codec string, blockSize uint) []byte {
+	ctx, _ := c12Ctx(codec, blockSize, a.Len)
+	var p interface {
+		Get() int
+		Update(bit byte)
+	}
+	switch codec {
+	case "CM":
+		pp, err := entropy.NewCMPredictor(&ctx)
+		if err != nil {
+			return nil
+		}
+		p = pp
+	case "TPAQ", "TPAQX":
+		pp, err := entropy.NewTPAQPredictor(&ctx)
+		if err != nil {
+			return nil
+		}
+		p = pp
+	default:
+		return make([]byte, a.Len)
+	}
+	rg := &sm64{s: a.Seed*0x9E3779B97F4A7C15 + 99}
+	b := make([]byte, a.Len)
+	for i := range b {
+		var v byte
+		for k := 7; k >= 0; k-- {
+			bit := byte(0)
+			if p.Get() < 2048 {
+				bit = 1 // the predictor thinks a one is unlikely
+			}
+			if a.Noise > 0 && int(rg.next()%1000) < a.Noise {
+				bit = byte(rg.next() & 1)
+			}
+			p.Update(bit)
+			v |= bit << uint(k)
+		}
+		b[i] = v
+	}
+	return b
+}
+
 func (c C12Case) bytes() []byte {
+	if c.Adv != nil {
+		return c.Adv.expand(c.Codec, c.BlockSize)
+	}
 	if c.Hist != nil {
 		return c.Hist.Expand()
 	}
@@ -276,10 +341,7 @@ func runC12(r *vrt.Run, c C12Case) (o c12Out) {
 	if bufSize < 1024 {
 		bufSize = 16384
 	}
-	bsz := c.BlockSize
-	if bsz < 1024 {
-		bsz = uint(max(1024, (len(data)+15)&^15))
-	}
+	_, bsz := c12Ctx(c.Codec, c.BlockSize, len(data))
 	sink := &fio.Sink{}
 	var wbits uint64
 	err = guard(func() error {
@@ -312,6 +374,9 @@ func runC12(r *vrt.Run, c C12Case) (o c12Out) {
 	})
 	if err != nil {
 		o.msg = "encoding failed: " + err.Error()
+		if isPanic(err) && strings.Contains(o.msg, "BinaryEntropyEncoder).flush") && strings.Contains(o.msg, "index out of range") {
+			o.known = "KF-30" // the bit-wise encoder's chunk buffer (length + length/8) is too small for this block
+		}
 		return
 	}
 	o.written = wbits
@@ -393,7 +458,10 @@ func c12Eval(r *vrt.Run, c C12Case) c12Out {
 	o := runC12(r, c)
 	n := 0
 	shape := "datakind"
-	if c.Hist != nil {
+	if c.Adv != nil {
+		n = c.Adv.Len
+		shape = "shape:adversarial-for-the-predictor"
+	} else if c.Hist != nil {
 		n = c.Hist.Len
 		shape = "shape:" + shapeNames[c.Hist.Shape%nShapes]
 	} else if c.Data != nil {
@@ -403,7 +471,9 @@ func c12Eval(r *vrt.Run, c C12Case) c12Out {
 	r.Eval(vrt.HashOf(c), o.nontrivial, "codec:"+c.Codec, shape, "len:"+sizeClass(n), fmt.Sprintf("prefix:%d", c.Prefix), c.Codec+":len:"+sizeClass(n))
 	if o.nontrivial && r.WantSample() {
 		m := map[string]any{"codec": c.Codec, "prefix_bytes": c.Prefix, "pad_bits": c.PadBits, "block_size": c.BlockSize, "bits_written": o.written}
-		if c.Hist != nil {
+		if c.Adv != nil {
+			m["adversarial"] = *c.Adv
+		} else if c.Hist != nil {
 			m["hist"] = *c.Hist
 		} else if c.Data != nil {
 			m["data"] = c.Data.String()
@@ -455,6 +525,11 @@ func drawC12(t *rapid.T, maxLen int, heavy bool) C12Case {
 			K: rapid.IntRange(0, 255).Draw(t, "k"), M: rapid.IntRange(1, 4).Draw(t, "m"), Len: n,
 			Arrange: rapid.IntRange(0, 2).Draw(t, "arrange"), Seed: rapid.Uint64Range(0, 1<<32).Draw(t, "seed")}
 		c.Hist = &h
+	}
+	if (c.Codec == "TPAQ" || c.Codec == "TPAQX" || c.Codec == "CM") && rapid.IntRange(0, 2).Draw(t, "adv") == 0 {
+		c.Hist, c.Data = nil, nil
+		c.Adv = &AdvRecipe{Len: min(n, 6000), Noise: rapid.SampledFrom([]int{0, 0, 5, 50, 300}).Draw(t, "noise"), Seed: rapid.Uint64Range(0, 1<<20).Draw(t, "advseed")}
+		n = c.Adv.Len
 	}
 	c.BlockSize = uint(rapid.SampledFrom([]int{0, 1024, 65536, 1 << 20, 4 << 20}).Draw(t, "blockSize"))
 	if int(c.BlockSize) < n {
@@ -545,6 +620,36 @@ func TestC12(t *testing.T) {
 			}
 		}
 		r.SetExhaustive("exact geometric/Fibonacci histograms x scale-sized blocks x {HUFFMAN, ANS0, RANGE, ANS1}", true)
+	}
+	// Sweep: blocks built against the predictor of each bit-wise coder, every length 1..N (no noise, and 2 % noise)
+	{
+		aidx := 0
+		top := r.Pick(260, 1600)
+		for _, codec := range []string{"TPAQ", "CM", "TPAQX"} {
+			for ln := 1; ln <= top; ln++ {
+				for _, noise := range []int{0, 20} {
+					aidx++
+					if !r.Mine(aidx) || r.Failed() {
+						continue
+					}
+					c := C12Case{Codec: codec, Adv: &AdvRecipe{Len: ln, Noise: noise, Seed: uint64(ln)}, BlockSize: []uint{0, 65536}[aidx%2], Prefix: aidx % 8, PadBits: aidx % 7, BufSize: 16384}
+					r.Label("directed:adversarial-sweep")
+					if o := c12Eval(r, c); o.msg != "" {
+						if o.known != "" && r.KnownOpen(o.known) {
+							r.Excluded(o.known)
+							continue
+						}
+						if r.Survey() {
+							r.Violation(t, "entropy", c, "%s", o.msg)
+							continue
+						}
+						r.RecordFailure("entropy", c, "", o.msg)
+						t.Fatalf("adversarial sweep: %s on %s", o.msg, jsonOf(c))
+					}
+				}
+			}
+		}
+		r.SetExhaustive(fmt.Sprintf("adversarial blocks of every length 1..%d x {TPAQ, CM, TPAQX}", top), true)
 	}
 	// fixed cases across the 4 MiB internal chunk boundary of ANS1 and FPAQ (cheap enough for every run)
 	idx := 0
